@@ -72,6 +72,9 @@ func (s *server) RoundTrip(req *http.Request) (*http.Response, error) {
 	e := &seen{N: n, Method: req.Method, Host: req.Host, URLHost: req.URL.Host, Path: req.URL.Path, Auth: req.Header.Get("Authorization"), at: time.Now().UTC()}
 	e.HasAuth = e.Auth != ""
 	kind := s.tp.Tail
+	if len(s.tp.Cycle) > 0 {
+		kind = s.tp.Cycle[(n+len(s.tp.Cycle)*8-len(s.tp.Script)%len(s.tp.Cycle))%len(s.tp.Cycle)]
+	}
 	if n < len(s.tp.Script) {
 		kind = s.tp.Script[n]
 	}
@@ -198,7 +201,11 @@ func run(tapeJSON json.RawMessage, res *core.Result) {
 	for _, a := range alphabet {
 		valid[a] = true
 	}
-	for _, s := range append(append([]string{}, tp.Script...), tp.Tail) {
+	if len(tp.Cycle) > 4 {
+		res.Verdict, res.Harness = "invalid", "cycle"
+		return
+	}
+	for _, s := range append(append(append([]string{}, tp.Script...), tp.Tail), tp.Cycle...) {
 		if !valid[s] {
 			res.Verdict, res.Harness = "invalid", "response kind"
 			return
@@ -462,6 +469,9 @@ func run(tapeJSON json.RawMessage, res *core.Result) {
 			}
 		}
 	}
+	if len(tp.Cycle) > 0 {
+		res.Probes["periodic-tail"]++
+	}
 	if tp.Tail == "401-negotiate" {
 		res.Probes["ever-challenging-tail"]++
 	}
@@ -496,12 +506,21 @@ func run(tapeJSON json.RawMessage, res *core.Result) {
 	if tp.GapS > 0 {
 		res.Faults["clock-advanced-between-calls"]++
 	}
-	res.Class = fmt.Sprintf("%s>%s|%s|%s|%s|%s|n=%d|%s", strings.Join(tp.Script, ","), tp.Tail, tp.Method, bodyClass, tp.SPNMode, tp.Host, len(srv.log), out)
+	tailName := tp.Tail
+	if len(tp.Cycle) > 0 {
+		tailName = "(" + strings.Join(tp.Cycle, ",") + ")*"
+	}
+	res.Class = fmt.Sprintf("%s>%s|%s|%s|%s|%s|n=%d|%s", strings.Join(tp.Script, ","), tailName, tp.Method, bodyClass, tp.SPNMode, tp.Host, len(srv.log), out)
 	res.Stats["http_requests"] = int64(len(srv.log))
 	simrt.Logf("script=%v tail=%s method=%s api=%s requests=%d outcome=%s err=%s", tp.Script, tp.Tail, tp.Method, tp.API, len(srv.log), out, d.Err)
 }
 
 func shapeOf(tp *Tape) string {
+	if len(tp.Cycle) > 0 {
+		t := *tp
+		t.Cycle = nil
+		return "periodic-tail+" + shapeOf(&t)
+	}
 	if len(tp.Warm) > 0 {
 		t := *tp
 		t.Warm = nil
